@@ -179,6 +179,18 @@ CHECKS = {
         "Trusted: CPython ints; ref/calendars.py Hebrew month lengths; day<->date bijection (C01).",
         "DESIGN.md §2 C09",
     ),
+    "C19": (
+        "exploration",
+        "model-based testing of generated operation sequences + generated line-level thread schedules (cooperative scheduler) with a linearizability oracle",
+        "Generated sequences of clock operations are compared step by step with the (now, auto-advance) model, "
+        "overflowing steps must raise and leave the state unchanged, and an instrumented non-re-entrant lock turns 'the "
+        "call never completes' into an immediate deterministic report. 2-3 threads x <=4 operations run under generated "
+        "schedules that own every line-level pre-emption inside the clock and its Instant/Duration arithmetic; results "
+        "must equal some sequential interleaving. A 16-thread stress run checks distinct reads and no lost advances. "
+        "ZonedClock getters and SystemClock are checked against the same model / the OS clock.",
+        "Trusted: CPython GIL semantics (no pre-emption finer than a source line is modelled), the model in checks/c19.py.",
+        "DESIGN.md §2 C19",
+    ),
     "C20": (
         "fault_enumeration",
         "fault injection: enumerated truncations + generated k-byte corruptions biased to structural bytes found by an independent parser",
